@@ -451,7 +451,15 @@ impl<'a> Lexer<'a> {
     }
 
     fn maybe_followed_by_apostrophe_suffix(&mut self, result: LexResult<'a>) -> LexResult<'a> {
-        if let Some(suffix) = self.scan_apostrophe_suffix(result.end) {
+        // the suffix lies on the line on which `result` ends, which is not the current line yet
+        // when `result` is a multi-line string or comment
+        let (line, line_start) = (self.line, self.line_start);
+        self.line += result.newlines;
+        self.line_start = result.new_line_start.unwrap_or(line_start);
+        let suffix = self.scan_apostrophe_suffix(result.end);
+        self.line = line;
+        self.line_start = line_start;
+        if let Some(suffix) = suffix {
             let result = result.extended_to(&suffix);
             self.staged = Some(suffix.token);
             result
